@@ -78,8 +78,36 @@ func (g *Gen) quoRemPair() (x, y d128.Decimal) {
 	return mk(g.r.Intn(2) == 0, c1, e1), mk(g.r.Intn(2) == 0, c2, e2)
 }
 
+// quoRemWidePartial solves for the rare step of the word-by-word division in which one partial quotient reaches 2^64:
+// the divisor o has 20 digits and fits one word; the dividend, scaled by the implementation to 38 digits, is o*Q + R with
+// a first quotient Q of 19 digits below 3.32e18 and a first remainder R between 0.185 o and 3.31e18, so that both can be
+// scaled by 10^20 and R*10^20 / o >= 2^64; at least 20 quotient digits are still to come.
+func (g *Gen) quoRemWidePartial() (x, y d128.Decimal) {
+	bi := func(s string) *big.Int { v, _ := new(big.Int).SetString(s, 10); return v }
+	o := new(big.Int).Add(bi("11000000000000000000"), new(big.Int).Rand(g.r, bi("6900000000000000000")))
+	qlo := new(big.Int).Add(new(big.Int).Div(new(big.Int).Mul(bi("333"), pow10(35)), o), big.NewInt(1))
+	qhi := bi("3310000000000000000")
+	q := new(big.Int).Add(qlo, new(big.Int).Rand(g.r, new(big.Int).Sub(qhi, qlo)))
+	rlo := new(big.Int).Div(new(big.Int).Mul(o, big.NewInt(185)), big.NewInt(1000))
+	rhi := bi("3300000000000000000")
+	if rhi.Cmp(o) > 0 {
+		rhi = new(big.Int).Sub(o, big.NewInt(20000))
+	}
+	r := new(big.Int).Add(rlo, new(big.Int).Rand(g.r, new(big.Int).Sub(rhi, rlo)))
+	k := 4 + g.r.Intn(3)
+	n := new(big.Int).Add(new(big.Int).Mul(o, q), r)
+	m := new(big.Int).Mod(n, pow10(k))
+	if m.Sign() != 0 {
+		n.Add(n, new(big.Int).Sub(pow10(k), m))
+	}
+	xc := new(big.Int).Div(n, pow10(k))
+	e := g.r.Intn(11) - 5
+	return mk(g.r.Intn(2) == 0, xc, e+k+20+g.r.Intn(9)), mk(g.r.Intn(2) == 0, o, e)
+}
+
 func genC03(g *Gen) {
 	g.setMode(0)
+	g.wordQuoRemGrid(0.15)
 	g.pairGrid(0.4, func(x, y d128.Decimal) {
 		g.bin("QuoRem", x, y, g.r.Intn(6))
 	})
@@ -93,6 +121,17 @@ func genC03(g *Gen) {
 			x, y = randFinite(g.r), randFinite(g.r)
 		case 2, 3, 4, 5, 6:
 			x, y = g.quoRemStructured()
+			k = 6
+		case 7, 8:
+			// a divisor of exactly 20 digits that still fits one 64-bit word (10^19 .. 2^64) under a long quotient: the
+			// partial quotients of the word-by-word division can then reach 2^64
+			d20 := new(big.Int).Add(pow10(19), new(big.Int).Rand(g.r, new(big.Int).Sub(new(big.Int).Lsh(big.NewInt(1), 64), pow10(19))))
+			e := g.r.Intn(11) - 5
+			y = mk(g.r.Intn(2) == 0, d20, e)
+			x = mk(g.r.Intn(2) == 0, randDigits(g.r, 20+g.r.Intn(15)), e+20+g.r.Intn(21))
+			if g.r.Intn(4) != 0 {
+				x, y = g.quoRemWidePartial()
+			}
 			k = 6
 		default:
 			x, y = g.quoRemPair()
@@ -234,6 +273,15 @@ func genC04(g *Gen) {
 		g.bin2("Min", x, y)
 		g.bin2("Max", y, x)
 	})
+	g.wordCmpGrid(0.1, func(x, y d128.Decimal) {
+		g.bin2("Cmp", x, y)
+		g.bin2("Cmp", y, x)
+		g.bin2("CmpAbs", y, x)
+		g.bin2("Equal", x, y)
+		g.bin2("Compare", y, x)
+		g.bin2("Max", x, y)
+		g.bin2("Min", y, x)
+	})
 	g.pairGrid(0.4, func(x, y d128.Decimal) {
 		g.bin2("Cmp", x, y)
 		g.bin2("CmpAbs", x, y)
@@ -335,6 +383,7 @@ func genC08(g *Gen) {
 		g.quant("Ceil", x, dp, 0)
 		g.quant("Floor", x, dp, 0)
 	})
+	g.wordQuantGrid(0.18)
 	g.encodingGrid(0.1, func(x d128.Decimal) {
 		_, _, _, xe := unmk(x)
 		dp := -xe - 1 + g.r.Intn(3)
